@@ -523,6 +523,7 @@ inductive Mut
   | setUnit (col : Label) (u : Str)        -- `Table(df)[col].unit = u` / `set_units`
   | setName (n : Str)                      -- `Table(df).metadata.name = n`
   | addDest (d : Str)                      -- `Table(df).destinations.add(d)`
+  | removeDest (d : Str)                   -- `Table(df).metadata.destinations.discard(d)` (may leave the set empty)
   | addColumn (col : Label) (u : Str)      -- `Table(df).add_column(col, values, unit=u)` (metadata part)
   | setDispUnit (col : Label) (u : Str)    -- `Table(df).column_metadata[col].display_unit = u`
   | setFmt (col : Label) (spec : Str)      -- `….display_format.specifier = spec` (no-op when there is no format)
@@ -545,6 +546,12 @@ def mutate (h : Heap) (i : Ref) (mu : Mut) : Except Err Heap :=
     | .ok tm => match h.dsets.get tm.dests with
       | none => .error .attributeError
       | some xs => .ok { h with dsets := h.dsets.write tm.dests (if d ∈ xs then xs else xs ++ [d]) }
+  | .removeDest d =>
+    match getTMeta h inf.tmeta with
+    | .error e => .error e
+    | .ok tm => match h.dsets.get tm.dests with
+      | none => .error .attributeError
+      | some xs => .ok { h with dsets := h.dsets.write tm.dests (xs.filter (fun x => x ≠ d)) }
   | .setUnit l u =>
     match getDict h inf.cols with
     | .error e => .error e
